@@ -148,6 +148,12 @@ def get_all_rules(rules_path=None, match_mode='first_match'):
     """
     global _cached_engine, _cached_engine_path
 
+    # Forget the engine of any earlier load: normalize_merchant() prefers a cached
+    # engine over its rules argument, so a CSV / failed / empty load must not leave
+    # the previous .rules engine behind.
+    _cached_engine = None
+    _cached_engine_path = None
+
     user_rules_with_source = []
     if rules_path:
         # Check if it's the new .rules format
